@@ -209,21 +209,20 @@ Proof.
     exists 1; intros fuel Hf; fuel_S fuel Hf. exists (VFloat r None); split.
     + simpl. unfold scalar_node; simpl. rewrite H; reflexivity.
     + intros eager stack f' Hf'; fuel_S f' Hf'. simpl. unfold coerce_scalar; simpl. rewrite H0; reflexivity.
-  - (* custom scalar, string *)
+  - (* custom scalar, string that does not look like a number *)
     exists 1; intros fuel Hf; fuel_S fuel Hf.
-    destruct (not_specified n H) as (H1 & H2 & H3 & H4 & H5).
-    destruct (scalar_node n (PStr s)) as [node| | |] eqn:Hs.
-    2-4: (unfold scalar_node in Hs; rewrite H1, H2, H3, H4, H5 in Hs;
-          destruct (int_re s); [destruct (Z_of_str s); [destruct (strict_int32 z)|]|destruct (float_re s)];
-          discriminate).
-    exists node; split.
-    + ksimpl. rewrite H, H0. assumption.
-    + intros eager stack f' Hf'; fuel_S f' Hf'.
-      destruct (custom_scalar_node n _ node H Hs) as [[s' [Hv Hnode]]|[[b [Hv _]]|[[z Hv]|[r Hv]]]];
-        try discriminate.
-      inversion Hv; subst s'.
-      destruct Hnode as [->|[->| ->]]; ksimpl; rewrite H, H0; unfold coerce_scalar;
-        rewrite H1, H2, H3, H4, H5; reflexivity.
+    destruct (not_specified n H) as (N1 & N2 & N3 & N4 & N5).
+    exists (VString s false None); split.
+    + ksimpl. rewrite H, H0. unfold scalar_node; rewrite N1, N2, N3, N4, N5, H1, H2; reflexivity.
+    + intros eager stack f' Hf'; fuel_S f' Hf'. ksimpl; rewrite H, H0; unfold coerce_scalar;
+        rewrite N1, N2, N3, N4, N5; reflexivity.
+  - (* custom scalar, float *)
+    exists 1; intros fuel Hf; fuel_S fuel Hf.
+    destruct (not_specified n H) as (N1 & N2 & N3 & N4 & N5).
+    exists (VFloat r None); split.
+    + ksimpl. rewrite H, H0. unfold scalar_node; rewrite N1, N2, N3, N4, N5; reflexivity.
+    + intros eager stack f' Hf'; fuel_S f' Hf'. ksimpl; rewrite H, H0; unfold coerce_scalar;
+        rewrite N1, N2, N3, N4, N5, H1; reflexivity.
   - (* custom scalar, boolean *)
     exists 1; intros fuel Hf; fuel_S fuel Hf.
     destruct (not_specified n H) as (H1 & H2 & H3 & H4 & H5).
@@ -235,6 +234,19 @@ Proof.
     exists 1; intros fuel Hf; fuel_S fuel Hf. exists (VEnum m None); split.
     + destruct v; try congruence; ksimpl; rewrite H, H0, H1; reflexivity.
     + intros eager stack f' Hf'; fuel_S f' Hf'. ksimpl. rewrite H, H0, H2; reflexivity.
+Qed.
+
+(* an int value of a custom scalar is printed as a FloatValue node holding the
+   integer's text; that text is an integer literal, so the document the
+   printed text denotes carries an IntValue ([relex]), which coerces back *)
+Theorem custom_int_roundtrip E n z fuel fuel' eager stack :
+  mem_str n specified_scalars = false -> alookup n E = Some IScalar ->
+  node_of_value (S fuel) E (PInt z) (RNamed n) = Ok (VFloat (str_of_Z z) None)
+  /\ coerce (S fuel') eager E stack (RNamed n) (VInt (str_of_Z z) None) = Ok (PInt z).
+Proof.
+  intros H H0. destruct (not_specified n H) as (N1 & N2 & N3 & N4 & N5). split.
+  - ksimpl. rewrite H, H0. unfold scalar_node; rewrite N1, N2, N3, N4, N5; reflexivity.
+  - ksimpl. rewrite H, H0. unfold coerce_scalar; rewrite N1, N2, N3, N4, N5, Z_of_str_of_Z; reflexivity.
 Qed.
 
 (* ------------------------------------------------------------------ *)
